@@ -2,7 +2,7 @@ from __future__ import print_function
 import string
 import logging
 from bisect import bisect
-from ast import Name as AstName, Attribute, Call, FunctionDef, ClassDef, Lambda
+from ast import Name as AstName, Attribute, Call, FunctionDef, ClassDef, Lambda, List, Tuple
 try:
     from ast import AsyncFunctionDef
 except ImportError:
@@ -332,11 +332,31 @@ class SourceScope(Scope):
 
             # the names copied below are those the module had now
             self.star_modules.append(module)
-            for name in iterkeys(module._attrs):
-                if not name.startswith('_'):
+            attrs = module._attrs
+            public = star_names(attrs)
+            for name in iterkeys(attrs):
+                if name in public if public is not None else not name.startswith('_'):
                     flow.add_name(ImportedName(name, loc, declared_at, mname, name, True))
 
         self._star_imports[:] = []
+
+
+def star_names(attrs):
+    # type: (t.Mapping[str, t.Any]) -> list[str] | None
+    # what `__all__` lists, where the module assigns it a list or a tuple of
+    # string literals (or has one at run time): then a star import copies
+    # exactly those names, underscore or not
+    entry = attrs.get('__all__')
+    node = getattr(entry, 'value_node', None)
+    if isinstance(node, (List, Tuple)):
+        names = [getattr(e, 'value', None) for e in node.elts]
+        if all(isinstance(n, str) for n in names):
+            return names
+        return None
+    value = getattr(entry, 'value', None)
+    if isinstance(value, (list, tuple)) and all(isinstance(n, str) for n in value):
+        return list(value)
+    return None
 
 
 def get_first_body_node_loc(body):
